@@ -153,7 +153,7 @@ func c19History(L, nSenders, nNonces int) {
 
 func VerifC19_History() {
 	if sym.Tier() == "thorough" {
-		c19History(5, 3, 2)
+		c19History(5, 2, 2)
 		return
 	}
 	c19History(4, 2, 2)
